@@ -389,6 +389,19 @@ pub fn drive(tier: &str) -> i32 {
         "long tokens: identifiers of 39 .. 1000 characters in 10 roles, numbers of 5 .. 5000 digits in every notation and 9 places, lists of 10 .. 1000 items, very long lines, 66 000 lines".into(),
         vcore::slots::long_token_programs(),
     ));
+    {
+        // flat chains: no nesting at all in the text, thousands of operands
+        let mut flat = vec![];
+        for n in [300usize, 1000, 3000, 10000] {
+            for op in [" + ", " * ", " AND ", " OR ", " - ", " < "] {
+                flat.push(format!("X = {}\n", vec!["1"; n].join(op)));
+            }
+            flat.push(format!("X$ = {}\n", vec!["\"a\""; n].join(" + ")));
+            flat.push(format!("PRINT {}\n", vec!["1"; n].join(" + ")));
+            flat.push(format!("IF {} THEN PRINT 1\n", vec!["A"; n].join(" OR ")));
+        }
+        groups.push(("flat operator chains of 300 .. 10 000 operands (no nesting in the text)".into(), flat));
+    }
     groups.push(("harvested texts as they are".into(), corpus.iter().map(|(_, t)| t.clone()).collect()));
 
     // seeds for edits: accepted programs; quick = first program per source file + fixtures.
